@@ -928,6 +928,10 @@ theorem run_append (kind : Nat → Kind) (early : Bool) (a b : List (Nat × Nat)
     | none => exact ih s
     | some s' => exact ih s'
 
+theorem cut_single (l : Bytes) (h : Proper l) : cut l = some [l] := by
+  have := cut_flatten [l] (fun x hx => by simp at hx; subst hx; exact h)
+  simpa using this
+
 /-- the per-goroutine lists of N goroutines as the list the executable check takes -/
 def perList (N : Nat) (per : Nat → List Bytes) : List (List Bytes) := (List.range N).map per
 
